@@ -516,6 +516,10 @@ def run(ctx, rep) -> None:
             rep.nontrivial(r)
     for i, label in sorted(obad.items()):
         rep.violation(f'{label}: {json.dumps(uniq[i])[:600]}', payload=uniq[i])
+    # what feeds the observers: the real scan_resources on generated API discovery documents (several versions and a preferred one,
+    # subresources, namesakes, versions that are gone, limited re-scans) against the reference function of Discovery.tla
+    from vf import discovery
+    discovery.stage(ctx, rep, 'C19')
     rep.sample({'scenario': traces[0]['scenario'], 'events_head': traces[0]['events'][:12]}); rep.sample(traces[-1]['events'][-3:])
     if ots:
         rep.sample({'orchestrator': ots[1]['id'], 'events_head': ots[1]['events'][:12]})
